@@ -551,7 +551,7 @@ class StructInterp:
         return None
 
     def finish(self):
-        self.ctx.label("pool:%d" % min(len(self.pool), 6))
+        self.ctx.label("pool:%d" % min(len(self.pool), 6), "reads:%d+" % (5 * (len([e for e in self.events if e[0] in ("read", "audit")]) // 5)))
         kinds = set(k for k, _, _ in self.pool)
         for k in kinds:
             self.ctx.label("kind:%s" % k)
@@ -596,11 +596,576 @@ def struct_machine(run):
         def audit(self, i, rev):
             self.op("audit", i=i, rev=rev)
 
+        @rule(i=st.integers(0, 11), q1=st.integers(0, 20), q2=st.integers(0, 20))
+        def read_two(self, i, q1, q2):
+            self.op("read", i=i, q=q1)
+            self.op("read", i=i, q=q2)
+
         @rule(i=st.integers(0, 11), d=st.integers(0, 12), c=st.sampled_from([2.0, -1.5, 0.5, 3.0]), lo=st.integers(0, 7), hi=st.integers(0, 7))
         def derive(self, i, d, c, lo, hi):
             self.op("derive", i=i, d=d, c=c, lo=lo, hi=hi)
 
+        @rule(i=st.integers(0, 11), q=st.integers(0, 20), d=st.integers(0, 12), c=st.sampled_from([2.0, -1.5, 0.5, 3.0]), lo=st.integers(0, 7), hi=st.integers(0, 7))
+        def read_then_derive(self, i, q, d, c, lo, hi):
+            self.op("read", i=i, q=q)
+            self.op("derive", i=i, d=d, c=c, lo=lo, hi=hi)
+
     return StructMachine
+
+
+# ---------------------------------------------------------------------------------------------
+# machine 2: dataset / fit
+# ---------------------------------------------------------------------------------------------
+def _q_dataset():
+    return [
+        ("data", lambda d: d.data),
+        ("noise_map", lambda d: d.noise_map),
+        ("psf", lambda d: d.psf.native if d.psf is not None else None),
+        ("mask", lambda d: d.mask),
+        ("signal_to_noise_map", lambda d: d.signal_to_noise_map),
+        ("signal_to_noise_max", lambda d: d.signal_to_noise_max),
+        ("grid", lambda d: d.grid),
+        ("grids.uniform", lambda d: d.grids.uniform),
+        ("grids.non_uniform", lambda d: d.grids.non_uniform),
+        ("grids.pixelization", lambda d: d.grids.pixelization),
+        ("grids.blurring", lambda d: d.grids.blurring),
+        ("grids.pixelization.over_sampled", lambda d: d.grids.over_sampler_pixelization.over_sampled_grid),
+        ("grids.border_relocator.sub_border_slim", lambda d: d.grids.border_relocator.sub_border_slim),
+        ("convolver.image_frame_1d_indexes", lambda d: d.convolver.image_frame_1d_indexes),
+        ("convolver.image_frame_1d_kernels", lambda d: d.convolver.image_frame_1d_kernels),
+        ("convolver.blurring_mask", lambda d: d.convolver.blurring_mask),
+        ("w_tilde.curvature_preload", lambda d: d.w_tilde.curvature_preload),
+        ("w_tilde.indexes", lambda d: d.w_tilde.indexes),
+        ("w_tilde.lengths", lambda d: d.w_tilde.lengths),
+        ("w_tilde.noise_map_value", lambda d: d.w_tilde.noise_map_value),
+        ("shape_native", lambda d: d.shape_native),
+        ("pixel_scales", lambda d: d.pixel_scales),
+    ]
+
+
+def _q_fit():
+    return [
+        ("data", lambda f: f.data),
+        ("noise_map", lambda f: f.noise_map),
+        ("model_data", lambda f: f.model_data),
+        ("residual_map", lambda f: f.residual_map),
+        ("normalized_residual_map", lambda f: f.normalized_residual_map),
+        ("chi_squared_map", lambda f: f.chi_squared_map),
+        ("signal_to_noise_map", lambda f: f.signal_to_noise_map),
+        ("chi_squared", lambda f: f.chi_squared),
+        ("reduced_chi_squared", lambda f: f.reduced_chi_squared),
+        ("noise_normalization", lambda f: f.noise_normalization),
+        ("log_likelihood", lambda f: f.log_likelihood),
+        ("figure_of_merit", lambda f: f.figure_of_merit),
+        ("grids.uniform", lambda f: f.grids.uniform),
+        ("grids.pixelization", lambda f: f.grids.pixelization),
+    ]
+
+
+_FIT_CLS = []
+
+
+def _fit_cls():
+    import autoarray as aa
+    if not _FIT_CLS:
+        class VPFit(aa.FitImaging):
+            def __init__(self, dataset, use_mask_in_fit, model_data, dataset_model=None):
+                super().__init__(dataset=dataset, use_mask_in_fit=use_mask_in_fit, dataset_model=dataset_model)
+                self._vp_model = model_data
+
+            @property
+            def model_data(self):
+                return self._vp_model
+
+        _FIT_CLS.append(VPFit)
+    return _FIT_CLS[0]
+
+
+def rebuild_dataset(ds):
+    import autoarray as aa
+    mask = rebuild("mask", ds.mask)
+    data = aa.Array2D(values=np.array(ds.data.native).copy(), mask=mask, store_native=ds.data.store_native)
+    noise = aa.Array2D(values=np.array(ds.noise_map.native).copy(), mask=mask, store_native=ds.noise_map.store_native)
+    psf = None
+    if ds.psf is not None:
+        psf = aa.Kernel2D.no_mask(values=np.array(ds.psf.native).copy(), pixel_scales=tuple(ds.psf.pixel_scales), normalize=False)
+    return aa.Imaging(data=data, noise_map=noise, psf=psf, over_sampling=ds.over_sampling, use_normalized_psf=False, check_noise_map=False)
+
+
+class DatasetInterp:
+    def __init__(self, ctx):
+        self.ctx = ctx
+        self.dead = False
+        self.pool = []     # ("dataset"|"fit", obj, provenance, extra)
+        self.inputs = []
+        self.snaps = []
+        self.events = []
+
+    def _own(self, desc, arr):
+        self.inputs.append((desc, arr, fp(arr)))
+        return arr
+
+    def _after(self, what):
+        for desc, arr, h in self.inputs:
+            self.ctx.check(fp(arr) == h, "dataset/input-mutated/%s" % desc, "caller-owned %s changed after %s" % (desc, what))
+        for desc, ref, want in self.snaps:
+            self.ctx.check(same(norm(ref), want, rtol=0.0), "dataset/returned-value-changed/%s" % desc,
+                           "value returned earlier by %s changed after %s" % (desc, what))
+
+    def _twin(self, i):
+        kind, obj, prov, extra = self.pool[i]
+        if kind == "dataset" and prov == "ctor":
+            return self.root_twin()   # the root dataset must still be what was built from the raw inputs
+        if kind == "dataset":
+            return rebuild_dataset(obj)
+        ds_twin = rebuild_dataset(obj.dataset)
+        import autoarray as aa
+        model = aa.Array2D(values=np.array(extra["model"]).copy(), mask=ds_twin.mask, store_native=extra["model"].store_native)
+        dm = aa.DatasetModel(background_sky_level=extra["sky"]) if extra["sky"] else None
+        return _fit_cls()(dataset=ds_twin, use_mask_in_fit=extra["use_mask"], model_data=model, dataset_model=dm)
+
+    def _read(self, i, qi, twin=None):
+        kind, obj, prov, extra = self.pool[i]
+        qs = _q_dataset() if kind == "dataset" else _q_fit()
+        name, fn = qs[qi % len(qs)]
+        want = norm(_call(fn, twin if twin is not None else self._twin(i)))
+        got_raw = _call(fn, obj)
+        got = norm(got_raw)
+        key = "dataset/%s/%s/%s" % (kind, prov, name.split(".")[0])
+        self.ctx.check(same(got, want), key, lambda: "%s.%s (%s) after history %s: got %s, fresh twin gives %s" % (
+            kind, name, prov, self.events[-6:], short(got), short(want)))
+        if hasattr(got_raw, "_array") or isinstance(got_raw, np.ndarray):
+            if len(self.snaps) < 40:
+                self.snaps.append(("%s.%s" % (kind, name), got_raw, got))
+        return name
+
+    def apply(self, op, a):
+        import autoarray as aa
+        ctx = self.ctx
+        if op == "setup":
+            h, w = a["shape"]
+            ps = tuple(a["pixel_scales"]); origin = tuple(a["origin"])
+            data_raw = self._own("data-values", np.resize(np.asarray(a["data"], dtype=float), h * w).reshape(h, w).copy())
+            noise_raw = self._own("noise-values", (np.abs(np.resize(np.asarray(a["noise"], dtype=float), h * w)) + 0.2).reshape(h, w).copy())
+            psf_raw = self._own("psf-values", np.asarray(a["kernel"], dtype=float).copy())
+            def make(d_raw, n_raw, p_raw):
+                full = aa.Mask2D.all_false(shape_native=(h, w), pixel_scales=ps, origin=origin)
+                sn = bool(a.get("store_native", False))
+                data = aa.Array2D(values=d_raw, mask=full, store_native=sn)
+                noise = aa.Array2D(values=n_raw, mask=full, store_native=sn)
+                psf = aa.Kernel2D.no_mask(values=p_raw, pixel_scales=ps, normalize=False)
+                osd = aa.OverSamplingDataset(pixelization=aa.OverSamplingUniform(sub_size=a["sub_pix"])) if a["sub_pix"] else aa.OverSamplingDataset()
+                return aa.Imaging(data=data, noise_map=noise, psf=psf, over_sampling=osd, use_normalized_psf=a["normalize"])
+            ds = make(data_raw, noise_raw, psf_raw)
+            self.root_twin = lambda: make(data_raw.copy(), noise_raw.copy(), psf_raw.copy())
+            ctx.label("root:native-stored" if a.get("store_native") else "root:slim-stored")
+            self.pool.append(("dataset", ds, "ctor", None))
+            self.shape = (h, w)
+            return
+        if not self.pool:
+            return
+        i = a.get("i", 0) % len(self.pool)
+        kind, obj, prov, extra = self.pool[i]
+        if op == "read":
+            name = self._read(i, a["q"])
+            if any(e[0] == "derive" for e in self.events) and any(e[0] == "read" for e in self.events):
+                ctx.nt(True)
+            self.events.append(("read", i, name))
+        elif op == "audit":
+            qs = _q_dataset() if kind == "dataset" else _q_fit()
+            order = list(range(len(qs)))
+            if a["rev"]:
+                order.reverse()
+            twin = self._twin(i)  # one pristine twin for the whole audit (keeps the audit affordable)
+            for qi in order:
+                self._read(i, qi, twin=twin)
+            self.events.append(("audit", i, "*"))
+        elif op == "derive" and kind == "dataset" and len(self.pool) < 8:
+            d = ["apply_mask", "apply_mask", "apply_noise_scaling", "apply_noise_scaling_snr", "apply_over_sampling", "trimmed", "fit", "fit"][a["d"] % 8]
+            h, w = obj.shape_native
+            bits = a["bits"]
+            m = np.array([[bool((bits >> ((y * w + x) % 40)) & 1) for x in range(w)] for y in range(h)])
+            m[0, :] = True; m[-1, :] = True; m[:, 0] = True; m[:, -1] = True
+            if m.all():
+                m[h // 2, w // 2] = False
+            new = None
+            try:
+                new = self._derive_dataset(obj, d, m, a, bits, i, prov)
+            except aa.exc.DatasetException:
+                ctx.label("derive:rejected-by-library")   # e.g. noise scaling that yields a non-positive noise map
+                new = None
+            if new is not None:
+                self.pool.append(("dataset", new, d, None))
+                self.events.append(("derive", i, d))
+                ctx.label("derive:%s" % d)
+                if any(e[0] in ("read", "audit") and e[1] == i for e in self.events):
+                    ctx.label("history:derivation-after-read")
+        self._after("%s %s" % (op, a))
+
+    def _derive_dataset(self, obj, d, m, a, bits, i, prov):
+        import autoarray as aa
+        ctx = self.ctx
+        h, w = obj.shape_native
+        if d == "apply_mask":
+            um = getattr(obj, "unmasked", None)
+            if not (obj.mask.is_all_false or (um is not None and tuple(um.shape_native) == tuple(obj.shape_native))):
+                return None  # apply_mask re-masks the remembered unmasked dataset (documented usage); it must exist and share the frame
+            raw = self._own("apply_mask-mask", m.copy())
+            return obj.apply_mask(mask=aa.Mask2D(mask=raw, pixel_scales=tuple(obj.pixel_scales), origin=tuple(obj.mask.origin)))
+        if d in ("apply_noise_scaling", "apply_noise_scaling_snr"):
+            if not obj.mask.is_all_false:
+                return None
+            raw = self._own("noise_scaling-mask", m.copy())
+            mk = aa.Mask2D(mask=raw, pixel_scales=tuple(obj.pixel_scales), origin=tuple(obj.mask.origin))
+            if d == "apply_noise_scaling":
+                return obj.apply_noise_scaling(mask=mk, noise_value=1.0e4)
+            return obj.apply_noise_scaling(mask=mk, signal_to_noise_value=2.0)
+        if d == "apply_over_sampling":
+            return obj.apply_over_sampling(over_sampling=aa.OverSamplingDataset(uniform=aa.OverSamplingUniform(sub_size=2),
+                                                                                 pixelization=aa.OverSamplingUniform(sub_size=1 + bits % 3)))
+        if d == "trimmed":
+            if h < 5 or w < 5:
+                return None
+            return obj.trimmed_after_convolution_from(kernel_shape=(3, 3))
+        if d == "fit":
+            model = obj.data * 0.5 + 0.25
+            use_mask = bool(bits & 1)
+            sky = 0.5 if bits & 2 else 0.0
+            dm = aa.DatasetModel(background_sky_level=sky) if sky else None
+            fit = _fit_cls()(dataset=obj, use_mask_in_fit=use_mask, model_data=model, dataset_model=dm)
+            self.pool.append(("fit", fit, "fit", {"model": model, "use_mask": use_mask, "sky": sky}))
+            self.events.append(("derive", i, "fit"))
+            ctx.label("derive:fit")
+        return None
+
+    def finish(self):
+        self.ctx.label("pool:%d" % min(len(self.pool), 6), "reads:%d+" % (5 * (len([e for e in self.events if e[0] in ("read", "audit")]) // 5)))
+
+
+def dataset_machine(run):
+    from hypothesis.stateful import rule, initialize
+    Base = machine_base(run, DatasetInterp)
+
+    class DatasetMachine(Base):
+        @initialize(shape=st.tuples(st.integers(5, 7), st.integers(5, 7)).map(list), data=st.lists(gens.reals(-5, 10), min_size=6, max_size=12),
+                    noise=st.lists(gens.reals(0.1, 3), min_size=6, max_size=12), kernel=gens.kernels(max_side=3, kinds=("nonneg", "normalised"), min_side=3).map(lambda k: k["values"]),
+                    pixel_scales=gens.pixel_scales(), origin=gens.origins(mag=5.0), sub_pix=st.sampled_from([0, 1, 2]), normalize=st.booleans(),
+                    store_native=st.booleans())
+        def setup(self, **a):
+            self.op("setup", **a)
+
+        @rule(i=st.integers(0, 7), q=st.integers(0, 21))
+        def read(self, i, q):
+            self.op("read", i=i, q=q)
+
+        @rule(i=st.integers(0, 7), q1=st.integers(0, 21), q2=st.integers(0, 21))
+        def read_two(self, i, q1, q2):
+            self.op("read", i=i, q=q1)
+            self.op("read", i=i, q=q2)
+
+        @rule(i=st.integers(0, 7), rev=st.booleans())
+        def audit(self, i, rev):
+            self.op("audit", i=i, rev=rev)
+
+        @rule(i=st.integers(0, 7), d=st.integers(0, 7), bits=st.integers(0, 2 ** 40 - 1))
+        def derive(self, i, d, bits):
+            self.op("derive", i=i, d=d, bits=bits)
+
+    return DatasetMachine
+
+
+# ---------------------------------------------------------------------------------------------
+# machine 3: inversion / mappers / valued mapper
+# ---------------------------------------------------------------------------------------------
+def _dictvals(d, objs):
+    return tuple(d[o] for o in objs)
+
+
+def _q_inversion():
+    return [
+        ("data_vector", lambda t: t.inv.data_vector),
+        ("curvature_matrix", lambda t: t.inv.curvature_matrix),
+        ("regularization_matrix", lambda t: t.inv.regularization_matrix),
+        ("curvature_reg_matrix", lambda t: t.inv.curvature_reg_matrix),
+        ("reconstruction", lambda t: t.inv.reconstruction),
+        ("reconstruction_dict", lambda t: _dictvals(t.inv.reconstruction_dict, t.objs)),
+        ("mapped_reconstructed_data", lambda t: t.inv.mapped_reconstructed_data),
+        ("mapped_reconstructed_image", lambda t: t.inv.mapped_reconstructed_image),
+        ("mapped_reconstructed_data_dict", lambda t: _dictvals(t.inv.mapped_reconstructed_data_dict, t.objs)),
+        ("data_subtracted_dict", lambda t: _dictvals(t.inv.data_subtracted_dict, t.objs)),
+        ("regularization_term", lambda t: t.inv.regularization_term),
+        ("log_det_curvature_reg_matrix_term", lambda t: t.inv.log_det_curvature_reg_matrix_term),
+        ("log_det_regularization_matrix_term", lambda t: t.inv.log_det_regularization_matrix_term),
+        ("operated_mapping_matrix", lambda t: t.inv.operated_mapping_matrix),
+        ("mapping_matrix", lambda t: t.inv.mapping_matrix),
+        ("reconstruction_noise_map", lambda t: t.inv.reconstruction_noise_map),
+        ("mapper_edge_pixel_list", lambda t: t.inv.mapper_edge_pixel_list),
+        ("no_regularization_index_list", lambda t: t.inv.no_regularization_index_list),
+        ("total_params", lambda t: t.inv.total_params),
+        ("dataset.data", lambda t: t.dataset.data),
+        ("dataset.noise_map", lambda t: t.dataset.noise_map),
+        ("dataset.w_tilde.curvature_preload", lambda t: t.dataset.w_tilde.curvature_preload),
+        ("dataset.convolver.image_frame_1d_kernels", lambda t: t.dataset.convolver.image_frame_1d_kernels),
+    ]
+
+
+def _q_linear_obj():
+    def mapper_only(f):
+        return lambda o: f(o) if hasattr(o, "mapper_grids") else None
+    return [
+        ("mapping_matrix", lambda o: o.mapping_matrix),
+        ("params", lambda o: o.params),
+        ("regularization_matrix", lambda o: o.regularization_matrix if o.regularization is not None else None),
+        ("neighbors", lambda o: (np.array(o.neighbors), np.array(o.neighbors.sizes)) if o.neighbors is not None else None),
+        ("unique_mappings", lambda o: (o.unique_mappings.data_to_pix_unique, o.unique_mappings.data_weights, o.unique_mappings.pix_lengths)),
+        ("pix_sub_weights", mapper_only(lambda o: (o.pix_sub_weights.mappings, o.pix_sub_weights.sizes, o.pix_sub_weights.weights))),
+        ("sub_slim_indexes_for_pix_index", mapper_only(lambda o: tuple(tuple(x) for x in o.sub_slim_indexes_for_pix_index))),
+        ("pixel_signals", mapper_only(lambda o: o.pixel_signals_from(signal_scale=1.0))),
+        ("data_weight_total_for_pix", mapper_only(lambda o: o.data_weight_total_for_pix_from())),
+        ("edge_pixel_list", mapper_only(lambda o: o.edge_pixel_list)),
+        ("source_plane_mesh_grid", mapper_only(lambda o: np.array(o.source_plane_mesh_grid))),
+        ("source_plane_data_grid", mapper_only(lambda o: np.array(o.source_plane_data_grid))),
+        ("mesh_neighbors", mapper_only(lambda o: np.array(o.source_plane_mesh_grid.neighbors))),
+        ("over_sampled_grid", mapper_only(lambda o: o.over_sampler.over_sampled_grid)),
+    ]
+
+
+def _q_valued():
+    return [
+        ("values_masked", lambda v: v.values_masked),
+        ("max_pixel_list", lambda v: v.max_pixel_list_from(total_pixels=2, filter_neighbors=False)),
+        ("max_pixel_list_filtered", lambda v: v.max_pixel_list_from(total_pixels=2, filter_neighbors=True)),
+        ("max_pixel_centre", lambda v: v.max_pixel_centre),
+        ("mapped_reconstructed_image", lambda v: v.mapped_reconstructed_image_from()),
+        ("magnification_via_mesh", lambda v: v.magnification_via_mesh_from()),
+        ("interpolated_array", lambda v: v.interpolated_array_from(shape_native=(5, 5))),
+        ("values", lambda v: v.values),
+        ("mapper.mapping_matrix", lambda v: v.mapper.mapping_matrix),
+    ]
+
+
+class Twin:
+    pass
+
+
+VALUED_VALUES_KEY = "inversion/valued-mapper/values_masked-overwrites-caller-values"
+
+
+class InversionInterp:
+    """One object graph (dataset + linear objects) shared by several inversions and valued mappers."""
+
+    def __init__(self, ctx):
+        self.ctx = ctx
+        self.dead = False
+        self.case = None
+        self.inputs = []
+        self.snaps = []
+        self.events = []
+        self.invs = []      # (Twin-like holder, spec)
+        self.valued = []    # (MapperValued, spec)
+        self.guard = []     # (description, object, vars snapshot)
+
+    def _own(self, desc, arr):
+        self.inputs.append((desc, arr, fp(arr)))
+        return arr
+
+    def _settings(self, spec):
+        import autoarray as aa
+        return aa.SettingsInversion(use_w_tilde=spec["use_w"], use_positive_only_solver=spec["positive"],
+                                    positive_only_uses_p_initial=True, force_edge_pixels_to_zeros=spec["force_edge"],
+                                    no_regularization_add_to_curvature_diag_value=1e-3)
+
+    def _build(self, spec, scene_objs=None, own=None):
+        """Builds (or reuses) the object graph and an inversion according to spec."""
+        import autoarray as aa
+        t = Twin()
+        if scene_objs is None:
+            sc = scene.build_scene(self.case, own=own) if own else scene.build_scene(self.case)
+            t.dataset, t.objs = sc.dataset, _ordered(sc.objs, spec.get("order", 0))
+        else:
+            t.dataset, t.objs = scene_objs
+        if spec["defaults"]:
+            t.settings = None
+            t.inv = aa.Inversion(dataset=t.dataset, linear_obj_list=t.objs)
+        else:
+            t.settings = self._settings(spec)
+            t.preloads = aa.Preloads()
+            t.inv = aa.Inversion(dataset=t.dataset, linear_obj_list=t.objs, settings=t.settings, preloads=t.preloads)
+        return t
+
+    def _after(self, what):
+        for desc, arr, h in self.inputs:
+            key = VALUED_VALUES_KEY if desc == "valued-values" else "inversion/input-mutated/%s" % desc
+            self.ctx.check(fp(arr) == h, key, "caller-owned %s changed after %s" % (desc, what))
+        for desc, ref, want in self.snaps:
+            key = VALUED_VALUES_KEY if desc in ("valued.values", "valued.values_masked") else "inversion/returned-value-changed/%s" % desc
+            self.ctx.check(same(norm(ref), want, rtol=0.0), key, "value returned earlier by %s changed after %s" % (desc, what))
+        for desc, obj, snap in self.guard:
+            now = _vars_snapshot(obj)
+            self.ctx.check(now == snap, "inversion/argument-object-mutated/%s" % desc, "%s attributes changed after %s: %s -> %s" % (desc, what, snap, now))
+
+    def _compare(self, key, name, got_raw, want_raw, snap_ok=True):
+        got, want = norm(got_raw), norm(want_raw)
+        self.ctx.check(same(got, want), key, lambda: "%s after history %s: got %s, fresh twin gives %s" % (name, self.events[-6:], short(got), short(want)))
+        if snap_ok and (hasattr(got_raw, "_array") or isinstance(got_raw, np.ndarray)) and len(self.snaps) < 40:
+            self.snaps.append((name, got_raw, got))
+
+    def apply(self, op, a):
+        import autoarray as aa
+        ctx = self.ctx
+        if op == "setup":
+            self.case = a["case"]
+            scene.scene_labels(self.case, ctx)
+            sc = scene.build_scene(self.case, own=self._own)
+            self.dataset, self.objs = sc.dataset, sc.objs
+            import inspect
+            from autoarray.inversion.inversion import factory
+            for fn in (factory.inversion_from, factory.inversion_imaging_from):
+                for pname, p in inspect.signature(fn).parameters.items():
+                    if p.default is not inspect.Parameter.empty and p.default is not None and not isinstance(p.default, (bool, int, float, str)):
+                        self.guard.append(("default-%s-of-%s" % (pname, fn.__name__), p.default, _vars_snapshot(p.default)))
+            return
+        if self.case is None:
+            return
+        if op == "invert":
+            if len(self.invs) >= 4:
+                return
+            spec = {"use_w": a["use_w"], "positive": a["positive"], "force_edge": a["force_edge"], "defaults": a["defaults"],
+                    "order": a.get("order", 0)}
+            t = self._build(spec, scene_objs=(self.dataset, _ordered(self.objs, spec["order"])))
+            if t.settings is not None:
+                self.guard.append(("settings", t.settings, _vars_snapshot(t.settings)))
+                self.guard.append(("preloads", t.preloads, _vars_snapshot(t.preloads)))
+            self.invs.append((t, spec))
+            self.events.append(("invert", len(self.invs) - 1, "defaults" if spec["defaults"] else ("w" if spec["use_w"] else "m")))
+            if len(self.invs) >= 2:
+                ctx.label("history:second-inversion")
+        elif op == "read_inv":
+            if not self.invs:
+                return
+            k = a["k"] % len(self.invs)
+            t, spec = self.invs[k]
+            qs = _q_inversion()
+            name, fn = qs[a["q"] % len(qs)]
+            twin = self._build(spec)
+            want = _call(fn, twin)
+            got = _call(fn, t)
+            self._compare("inversion/inversion/%s" % name, "inversion[%d].%s" % (k, name), got, want, snap_ok=(name != "curvature_matrix"))
+            if any(e[0] in ("read_inv", "read_obj", "read_valued") for e in self.events):
+                ctx.nt(True)
+            self.events.append(("read_inv", k, name))
+        elif op == "read_obj":
+            j = a["j"] % len(self.objs)
+            qs = _q_linear_obj()
+            name, fn = qs[a["q"] % len(qs)]
+            twin_objs = scene.build_scene(self.case).objs
+            want = _call(fn, twin_objs[j])
+            got = _call(fn, self.objs[j])
+            self._compare("inversion/linear_obj/%s" % name, "linear_obj[%d].%s" % (j, name), got, want)
+            if any(e[0] in ("read_inv", "read_valued") for e in self.events):
+                ctx.nt(True)
+            self.events.append(("read_obj", j, name))
+        elif op == "valued":
+            mappers = [j for j, o in enumerate(self.objs) if hasattr(o, "mapper_grids")]
+            if not mappers or len(self.valued) >= 3:
+                return
+            j = mappers[a["j"] % len(mappers)]
+            n = self.objs[j].params
+            vals = self._own("valued-values", np.resize(np.asarray(a["values"], dtype=float), n).copy())
+            pm = None
+            if a["use_mask"]:
+                pm = self._own("valued-pixel-mask", np.array([bool((a["bits"] >> (i % 30)) & 1) for i in range(n)]))
+            self.valued.append((aa.MapperValued(mapper=self.objs[j], values=vals, mesh_pixel_mask=pm), {"j": j, "vals": vals.copy(), "pm": None if pm is None else pm.copy()}))
+            self.events.append(("valued", j, "mask" if pm is not None else "nomask"))
+            ctx.label("history:valued-mapper" + ("-with-mask" if pm is not None else ""))
+        elif op == "read_valued":
+            if not self.valued:
+                return
+            v, vs = self.valued[a["k"] % len(self.valued)]
+            qs = _q_valued()
+            name, fn = qs[a["q"] % len(qs)]
+            twin_objs = scene.build_scene(self.case).objs
+            tv = aa.MapperValued(mapper=twin_objs[vs["j"]], values=vs["vals"].copy(), mesh_pixel_mask=None if vs["pm"] is None else vs["pm"].copy())
+            want = _call(fn, tv)
+            got = _call(fn, v)
+            # every manifestation of one root cause (values_masked writes into the caller's values) shares one key
+            depends_on_values = vs["pm"] is not None and name in ("values", "max_pixel_list", "max_pixel_list_filtered", "max_pixel_centre",
+                                                                   "interpolated_array", "magnification_via_mesh", "mapped_reconstructed_image", "values_masked")
+            mutated = depends_on_values and fp(v.values) != fp(vs["vals"])
+            self._compare(VALUED_VALUES_KEY if (mutated and name == "values") else "inversion/valued/%s" % name, "valued.%s" % name, got, want)
+            ctx.nt(True)
+            self.events.append(("read_valued", a["k"], name))
+        self._after("%s %s" % (op, {k: v for k, v in a.items() if k not in ("case", "values")}))
+
+    def finish(self):
+        self.ctx.label("inversions:%d" % len(self.invs), "valued:%d" % len(self.valued), "reads:%d+" % (5 * (len([e for e in self.events if e[0].startswith("read")]) // 5)))
+
+
+def _ordered(objs, order):
+    """Object list variants for later inversions on the same graph: 0 = as given, 1 = reversed, 2 = first object only."""
+    if order == 1:
+        return list(reversed(objs))
+    if order == 2:
+        return list(objs[:1])
+    return list(objs)
+
+
+def _vars_snapshot(obj):
+    out = []
+    for k, v in sorted(vars(obj).items()):
+        if isinstance(v, np.ndarray):
+            out.append((k, fp(v)))
+        elif isinstance(v, (bool, int, float, str, type(None), tuple)):
+            out.append((k, repr(v)))
+        else:
+            out.append((k, "id:%d" % id(v)))
+    return tuple(out)
+
+
+def inversion_machine(run):
+    from hypothesis.stateful import rule, initialize
+    Base = machine_base(run, InversionInterp)
+
+    class InversionMachine(Base):
+        @initialize(case=scene.scenarios(min_objs=1, max_objs=3, img_kwargs=dict(max_inner=4, max_k=3, kernel_kinds=("nonneg", "normalised", "signed")),
+                                         obj_kwargs=dict(max_sub=2, max_mesh=4, reg_types=("constant", "adaptive_brightness", "constant_split"))),
+                    use_w=st.booleans(), positive=st.booleans(), force_edge=st.booleans())
+        def setup(self, case, use_w, positive, force_edge):
+            self.op("setup", case=case)
+            self.op("invert", use_w=use_w, positive=positive, force_edge=force_edge, defaults=False, order=0)
+
+        @rule(use_w=st.booleans(), positive=st.booleans(), force_edge=st.booleans(), defaults=st.sampled_from([False, False, False, True]),
+              order=st.sampled_from([0, 0, 1, 2]))
+        def invert(self, use_w, positive, force_edge, defaults, order):
+            self.op("invert", use_w=use_w, positive=positive, force_edge=force_edge, defaults=defaults, order=order)
+
+        @rule(k=st.integers(0, 3), q=st.integers(0, 22))
+        def read_inv(self, k, q):
+            self.op("read_inv", k=k, q=q)
+
+        @rule(k=st.integers(0, 3), q=st.integers(0, 22))
+        def read_inv_b(self, k, q):
+            self.op("read_inv", k=k, q=q)
+
+        @rule(k=st.integers(0, 3), q1=st.integers(0, 22), q2=st.integers(0, 22), q3=st.integers(0, 22))
+        def read_inv_three(self, k, q1, q2, q3):
+            self.op("read_inv", k=k, q=q1)
+            self.op("read_inv", k=k, q=q2)
+            self.op("read_inv", k=k, q=q3)
+
+        @rule(j=st.integers(0, 2), q=st.integers(0, 13))
+        def read_obj(self, j, q):
+            self.op("read_obj", j=j, q=q)
+
+        @rule(j=st.integers(0, 2), values=st.lists(gens.reals(-2, 5), min_size=3, max_size=8), use_mask=st.booleans(), bits=st.integers(0, 2 ** 30 - 1))
+        def valued(self, j, values, use_mask, bits):
+            self.op("valued", j=j, values=values, use_mask=use_mask, bits=bits)
+
+        @rule(k=st.integers(0, 2), q=st.integers(0, 8))
+        def read_valued(self, k, q):
+            self.op("read_valued", k=k, q=q)
+
+    return InversionMachine
 
 
 # ---------------------------------------------------------------------------------------------
@@ -651,9 +1216,89 @@ def body_simulator(case, ctx):
     ctx.equal(n2, n1, "simulator/seeded-noise-map-depends-on-global-rng", "noise map of two simulations with noise_seed=%d" % case["noise_seed"])
 
 
+# ---------------------------------------------------------------------------------------------
+# interferometer factory: argument objects are not modified (@given)
+# ---------------------------------------------------------------------------------------------
+@st.composite
+def interferometer_case(draw):
+    mask = draw(gens.masks(lo=3, hi=5, ring=1, min_unmasked=3))
+    nv = draw(st.integers(2, 5))
+    return {
+        "mask": mask, "pixel_scales": draw(gens.pixel_scales(iso=True)),
+        "vis": draw(st.lists(gens.reals(-3, 3), min_size=2 * nv, max_size=2 * nv)),
+        "noise": draw(st.lists(gens.positives(0.2, 3), min_size=2 * nv, max_size=2 * nv)),
+        "uv": draw(st.lists(st.floats(-5e4, 5e4), min_size=2 * nv, max_size=2 * nv)),
+        "use_w_tilde": draw(st.booleans()), "use_defaults": draw(st.booleans()),
+        "mesh": [draw(st.integers(3, 4)), draw(st.integers(3, 4))],
+    }
+
+
+def body_interferometer(case, ctx):
+    import inspect
+    import autoarray as aa
+    from autoarray.inversion.inversion import factory
+    m = np.asarray(case["mask"], dtype=bool)
+    ps = tuple(case["pixel_scales"])
+    nv = len(case["vis"]) // 2
+    ctx.nt(True)
+    ctx.label("settings:defaults" if case["use_defaults"] else "settings:explicit-w%d" % case["use_w_tilde"])
+
+    def build():
+        mask = aa.Mask2D(mask=m.copy(), pixel_scales=ps)
+        vis_raw = (np.asarray(case["vis"][:nv]) + 1j * np.asarray(case["vis"][nv:])).astype("complex128")
+        noise_raw = (np.asarray(case["noise"][:nv]) + 1j * np.asarray(case["noise"][nv:])).astype("complex128")
+        uv_raw = np.asarray(case["uv"], dtype=float).reshape(nv, 2).copy()
+        ds = aa.Interferometer(data=aa.Visibilities(visibilities=vis_raw), noise_map=aa.VisibilitiesNoiseMap(visibilities=noise_raw),
+                               uv_wavelengths=uv_raw, real_space_mask=mask, transformer_class=aa.TransformerDFT)
+        osamp = aa.OverSamplerUniform(mask=mask, sub_size=1)
+        src = aa.Grid2DIrregular(values=np.asarray(osamp.over_sampled_grid).copy())
+        mesh = aa.Mesh2DRectangular.overlay_grid(grid=src, shape_native=tuple(case["mesh"]))
+        mapper = aa.Mapper(mapper_grids=aa.MapperGrids(mask=mask, source_plane_data_grid=src, source_plane_mesh_grid=mesh),
+                           over_sampler=osamp, regularization=aa.reg.Constant(coefficient=1.0))
+        return ds, mapper, (vis_raw, noise_raw, uv_raw)
+
+    defaults = []
+    for fn in (factory.inversion_from, factory.inversion_interferometer_from, factory.inversion_imaging_from):
+        for pname, p in inspect.signature(fn).parameters.items():
+            if p.default is not inspect.Parameter.empty and p.default is not None and not isinstance(p.default, (bool, int, float, str)):
+                defaults.append(("default-%s-of-%s" % (pname, fn.__name__), p.default, _vars_snapshot(p.default)))
+    ds, mapper, raws = build()
+    fps = [fp(r) for r in raws]
+    if case["use_defaults"]:
+        inv = aa.Inversion(dataset=ds, linear_obj_list=[mapper])
+        settings = None
+    else:
+        settings = aa.SettingsInversion(use_w_tilde=case["use_w_tilde"], use_positive_only_solver=False, no_regularization_add_to_curvature_diag_value=1e-3)
+        snap = _vars_snapshot(settings)
+        inv = aa.Inversion(dataset=ds, linear_obj_list=[mapper], settings=settings)
+    dv = np.array(inv.data_vector).copy()
+    cm = np.array(inv.curvature_matrix).copy()
+    if settings is not None:
+        ctx.check(_vars_snapshot(settings) == snap, "interferometer/settings-argument-mutated",
+                  "SettingsInversion passed to aa.Inversion changed: %s -> %s" % (snap, _vars_snapshot(settings)))
+    for desc, obj, s0 in defaults:
+        ctx.check(_vars_snapshot(obj) == s0, "interferometer/shared-default-mutated/%s" % desc.split("-of-")[0],
+                  "%s changed: %s -> %s" % (desc, s0, _vars_snapshot(obj)))
+    for r, h, nme in zip(raws, fps, ("visibilities", "noise-map", "uv_wavelengths")):
+        ctx.check(fp(r) == h, "interferometer/input-mutated/%s" % nme, "caller-owned %s changed" % nme)
+    # order independence: fresh twin, other read order
+    ds2, mapper2, _ = build()
+    inv2 = aa.Inversion(dataset=ds2, linear_obj_list=[mapper2], settings=aa.SettingsInversion(use_w_tilde=False, use_positive_only_solver=False,
+                                                                                             no_regularization_add_to_curvature_diag_value=1e-3))
+    cm2 = np.array(inv2.curvature_matrix).copy()
+    dv2 = np.array(inv2.data_vector).copy()
+    ctx.check(same(dv, dv2) and same(cm, cm2), "interferometer/order-dependence", "data_vector / curvature_matrix differ between read orders")
+
+
 SUBCHECKS = [
-    SubCheck("structures", replay_history(StructInterp), machine=struct_machine, examples={"quick": 480, "thorough": 6400},
+    SubCheck("structures", replay_history(StructInterp), machine=struct_machine, examples={"quick": 1600, "thorough": 16000},
              shards={"quick": 16, "thorough": 16}, steps={"quick": 20, "thorough": 40}),
+    SubCheck("dataset", replay_history(DatasetInterp), machine=dataset_machine, examples={"quick": 320, "thorough": 4800},
+             shards={"quick": 16, "thorough": 16}, steps={"quick": 15, "thorough": 30}),
+    SubCheck("inversion", replay_history(InversionInterp), machine=inversion_machine, examples={"quick": 1600, "thorough": 16000},
+             shards={"quick": 16, "thorough": 16}, steps={"quick": 20, "thorough": 40}),
+    SubCheck("interferometer", body_interferometer, strategy=interferometer_case(), examples={"quick": 120, "thorough": 1600},
+             shards={"quick": 2, "thorough": 8}),
     SubCheck("simulator", body_simulator, strategy=simulator_case(), examples={"quick": 200, "thorough": 3000},
              shards={"quick": 2, "thorough": 8}),
 ]
